@@ -269,6 +269,10 @@ class Check:
 _PAR = None
 
 
+class JobTimeout(BaseException):
+    """raised by the watchdog alarm inside a parallel job (BaseException: no `except Exception` of a check swallows it)"""
+
+
 def _par_worker(arg):
     idx, item = arg
     parent, fn = _PAR
@@ -283,14 +287,27 @@ def _par_worker(arg):
     sub.undecided, sub.violations, sub._pending_viol, sub.known_hits, sub.samples = [], [], [], {}, []
     sub.functions, sub.contracts, sub._engines, sub.extra_lists = set(), set(), [], {}
     sub.extra = {}
+    # watchdog: a job that runs away (path explosion on a changed tree) becomes UNDECIDED instead of blocking the whole check
+    import signal
+    limit = int(os.environ.get('VERIF_JOB_LIMIT', '300' if parent.quick else '5400'))
+
+    def on_alarm(sig, frm):
+        raise JobTimeout()
+    signal.signal(signal.SIGALRM, on_alarm)
+    signal.alarm(limit)
     try:
         fn(sub, item)
+        out = sub._snapshot()
+    except JobTimeout:
+        signal.alarm(0)
+        sub.undecide('a parallel job was stopped after %d s: %s' % (limit, repr(item)[:200]))
         out = sub._snapshot()
     except Broken as b:
         out = {'broken': str(b)}
     except Exception:
         out = {'broken': 'internal error in a parallel job:\n' + traceback.format_exc()}
     finally:
+        signal.alarm(0)
         sub.native.close()
     return out
 
